@@ -68,7 +68,17 @@ fn main() {
          request's receiver and nowhere else; ids of pending requests pairwise distinct; unknown/undecodable/late messages \
          change nothing; after stream error/end every pending request's receiver yields an error and no request stays pending \
          on a closed connection; a request is refused with Busy only while max_active_requests requests are pending \
-         (timed-out, cancelled and failed ones are removed); no panic. states/transitions/traces_validated_against_impl are sums over both parts: \
+         (timed-out, cancelled and failed ones are removed); no panic. WAKE-DRIVEN families (same multiplexer, the scripted stream keeps the waker of its last Pending answer \
+         and wakes it when the next inbound item becomes available, timers likewise, the multiplexer's waker only records): \
+         (b2) the same BFS (k <= 2 depth 10; thorough k <= 3 depth 12) in which poll is enabled ONLY while a wake-up is pending \
+         (initially, after a recorded wake-up, after send_message); (b3) burst family: send, settle, then n in {98..101, 150, \
+         199..201, 248 (thorough 15 sizes)} unknown-id / undecodable messages made available at once, followed by a response, \
+         a stream error or a stream end (and optionally one more response after everything went quiet), driven by a \
+         wake-driven executor. Clauses: poll_next returned Pending while an inbound item is available, no read waker is \
+         registered and no self-wake was recorded => stream-lost-wakeup:<what was read last>; a response for a pending \
+         request (or the close) is available while no poll is due and nobody is registered => \
+         stream-response-not-delivered:wake-driven / stream-closed-connection-request-not-failed:wake-driven. Extra wake-ups \
+         and self-wakes are always allowed; in these families the reference follows what was actually read. states/transitions/traces_validated_against_impl are sums over both parts: \
          (b) BFS states and transitions (every transition = one replay of the history on a fresh real multiplexer compared \
          with the reference) + (a) schedules consumed to their end (distinct environment histories reached) / datagrams consumed \
          / schedules executed. Non-trivial = (a) schedules in which a non-matching datagram was consumed before the genuine \
@@ -101,6 +111,9 @@ fn main() {
         "mux:ref-drops-late-response",
         "mux:ref-drops-unknown-id",
         "mux:ref-drops-undecodable",
+        "mux:wake-driven-poll",
+        "mux:wd-pending-with-read-waker",
+        "mux:burst-responses-received=1",
     ] {
         if ctx.outcome_count(class) == 0 {
             ctx.machinery_failure(&format!("vacuous run: outcome class '{class}' was never exercised"));
